@@ -76,7 +76,7 @@ def srvInit (R : Routes) (frames : List (Nat × Frame)) : SrvSt :=
 
 /-- **`node_end_to_end`** -/
 theorem node_end_to_end (R : Routes) (hv : R.Valid) (hN : 0 < R.N)
-    (cfg : Config) (h14 : cfg.headerLen = 14) (hc : cfg.codec = codec1) (hd : 1 ≤ cfg.env.depth)
+    (cfg : Config) (h14 : Conn.DeadCfg cfg) (hc : cfg.codec = codec1) (hd : 1 ≤ cfg.env.depth)
     (frames : List (Nat × Frame)) (hm : MonoF 0 frames)
     (hs : ∀ x ∈ frames, Supported R x.2 = true) (ha : ∀ x ∈ frames, Answered x.2 = true)
     (segs : List Bytes) (hseg : segs.flatten = stream (frames.map (·.2)))
@@ -155,7 +155,7 @@ theorem wire_append (a b : List Out) : wire (a ++ b) = wire a ++ wire b := by
     commands `done` that are complete in what it sent — computed on ONE M7 store — and not a byte of
     a later reply. -/
 theorem node_nothing_withheld (R : Routes) (hv : R.Valid) (hN : 0 < R.N)
-    (cfg : Config) (h14 : cfg.headerLen = 14) (hc : cfg.codec = codec1) (hd : 1 ≤ cfg.env.depth)
+    (cfg : Config) (h14 : Conn.DeadCfg cfg) (hc : cfg.codec = codec1) (hd : 1 ≤ cfg.env.depth)
     (frames : List (Nat × Frame)) (hm : MonoF 0 frames)
     (hs : ∀ x ∈ frames, Supported R x.2 = true) (ha : ∀ x ∈ frames, Answered x.2 = true)
     (segs : List Bytes) (rest : Bytes) (hseg : segs.flatten ++ rest = stream (frames.map (·.2)))
@@ -240,7 +240,7 @@ theorem node_nothing_withheld (R : Routes) (hv : R.Valid) (hN : 0 < R.N)
     connection — more frames `more` — the bytes written for the pipeline itself are a prefix of the
     bytes written for the longer stream, unchanged -/
 theorem node_later_bytes_do_not_alter_earlier_replies (R : Routes) (hv : R.Valid) (hN : 0 < R.N)
-    (cfg : Config) (h14 : cfg.headerLen = 14) (hc : cfg.codec = codec1) (hd : 1 ≤ cfg.env.depth)
+    (cfg : Config) (h14 : Conn.DeadCfg cfg) (hc : cfg.codec = codec1) (hd : 1 ≤ cfg.env.depth)
     (frames more : List (Nat × Frame)) (hm : MonoF 0 (frames ++ more))
     (hs : ∀ x ∈ frames ++ more, Supported R x.2 = true) (ha : ∀ x ∈ frames ++ more, Answered x.2 = true)
     (segs : List Bytes) (hseg : segs.flatten = stream ((frames ++ more).map (·.2)))
